@@ -213,7 +213,11 @@ func runReplica(c *fw.Ctx, race bool) {
 	nShort := c.Pick(2, 24)
 	nLong := c.Pick(1, 3)
 	if race {
-		nShort, nLong = 3, 1
+		// the race detector costs ~10x; a long (garbage-collected) tree only in two batches
+		nShort, nLong = 3, 0
+		if c.Batch < 2 {
+			nLong = 1
+		}
 	}
 	for i := 0; i < nShort+nLong; i++ {
 		long := i >= nShort
